@@ -21,7 +21,7 @@ OPEN = {
     "C03": ["C03_parsed_wf: forall s p, parse_media s = Ok p -> wf_media p = true -- not a theorem and not true unconditionally: besides the float/duration conditions (dur_rt, float_rt: decidable hypotheses on the modelled std conversions) a parse result can hold an unquoted SCTE35-* value with a comma or an EXTINF title that the writer cannot express; C03_roundtrip is stated for the well-formed parse results (wf_media, decidable, evaluated on a parsed example) and membership is sampled by the correspondence check",
             "byte-identical second serialisation and the order inside a key list: FALSE in general (known findings D20, D9-K1); keys are compared as sets, a map's keys are the reader's keys"],
     "C04": ["ufloat_rt x (FRAME-RATE) / float_rt x (TIME-OFFSET) for every f32 with at most 3 decimals: C04_roundtrip holds for every parse result under this decidable hypothesis on the modelled std float conversions; the hypothesis itself is not a theorem (evaluated on examples, exercised by the correspondence check)"],
-    "C05": ["C05_cost: cost_parse s <= c1*|s| + c2*|items s|*K s -- no cost model was built; time scaling is measured only (thorough tier)"],
+    "C05": ["C05_cost: cost_parse s <= c1*|s| + c2*|items s|*K s -- no cost model was built; time scaling is MEASURED in the thorough tier (five input families at n and 4n, evidence field streams.time_scaling), not proved"],
     "C12": ["C12_restyle: forall sty1 sty2 a, wf a -> parse (render sty1 a) = parse (render sty2 a) -- corollary of the open C01/C02 statements; attribute order proved for 3 tags + generic theorem, not instantiated for all 12 attribute-list tags; header-tag and segment-tag order permutations not proved (sampled)"],
     "C14": ["C14_T for EXT-X-KEY / STREAM-INF as an iff over all attribute lists: only the invariant direction is proved for keys; stream tags are by typing (BANDWIDTH / URI are required fields of the result)"],
     "C16": ["C16_slide is proved for the restatement the WRITER produces for the slid value (keys and maps re-announced by the library itself); a server that restates tags differently (e.g. repeats all keys in another order) is covered by C06/C12 only; wf_media carries the float/duration hypotheses"],
@@ -102,6 +102,8 @@ class Run:
         self.n_cases = len(cases)
         self.run_both(cases)
         self.judge_all(cases)
+        if hasattr(self.prop, "post"):
+            self.prop.post(self)
 
     def judge_all(self, cases):
         known_seen = {}
@@ -1261,6 +1263,72 @@ class C05(Prop):
                 out.append(mk("c", n, g.pick(["media", "master"]), hx(("#EXTM3U\n" if g.chance(0.7) else "") + s), stream="random"))
             n += 1
         return out
+
+    # ---- time scaling (thorough tier): the same family of inputs at size n and 4n; linear families may grow by 4x (bound 12x, to
+    # stay clear of noise), the family with an unbounded number of active key formats by 16x (bound 48x).  Timing is of the whole
+    # harness op (parse, dump, to_string, re-parse) minus the process start-up; best of three runs.
+    def post(self, run):
+        if run.tier != "thorough":
+            return
+
+        def media(n, formats_every=None, nformats=2):
+            lines = ["#EXTM3U", "#EXT-X-TARGETDURATION:10"]
+            for j in range(n):
+                if formats_every and j % formats_every == 0:
+                    lines.append('#EXT-X-KEY:METHOD=SAMPLE-AES,URI="k%d",KEYFORMAT="f%d"' % (j, (j // formats_every) % nformats))
+                lines += ["#EXTINF:9.5,t", "#EXT-X-BYTERANGE:10@%d" % (10 * j), "seg.ts"]
+            return "\n".join(lines) + "\n"
+
+        def master(n):
+            lines = ["#EXTM3U", '#EXT-X-MEDIA:TYPE=AUDIO,GROUP-ID="a",NAME="n"']
+            for j in range(n):
+                lines += ['#EXT-X-STREAM-INF:BANDWIDTH=%d,CODECS="avc1.4d401e,mp4a.40.2",RESOLUTION=640x360,AUDIO="a"' % (1000 + j), "v%d.m3u8" % j]
+            return "\n".join(lines) + "\n"
+
+        def long_line(n):
+            return "#EXTM3U\n#EXT-X-TARGETDURATION:10\n#EXT-X-DATERANGE:ID=\"d\"," + ",".join('X-A%d="v,%d"' % (j, j) for j in range(n)) + "\n#EXTINF:1,\ns.ts\n"
+
+        families = [
+            ("media, 2 key formats", "media", lambda n: media(n, 50, 2), 4000, 12.0),
+            ("master, n variants", "master", master, 4000, 12.0),
+            ("one DATERANGE line with n client attributes", "media", long_line, 4000, 12.0),
+            ("garbage line of n quotes", "media", lambda n: "#EXTM3U\n#EXT-X-KEY:" + '"' * n + "\n", 40000, 12.0),
+            ("media, a new key format every segment (unbounded)", "media", lambda n: media(n, 1, n), 400, 48.0),
+        ]
+
+        def timed(kind, text):
+            """in-process times of parse / to_string / re-parse (harness op `timing`), best of three"""
+            best = None
+            for _ in range(3):
+                r = list(vlib.run_impl([mk("z", 0, "timing", kind, hx(text))], shards=1).values())[0]
+                if not r.startswith(("ok ", "err ")):
+                    return None, r
+                t = parse_sexp(r)[1]
+                cur = [int(field(t, k)[1]) if field(t, k) else 0 for k in ("parse_us", "tostring_us", "reparse_us")]
+                best = cur if best is None else [min(x, y) for x, y in zip(best, cur)]
+            return best, r
+        report = []
+        for name, op, f, n0, bound in families:
+            t1, r1 = timed(op, f(n0))
+            t2, r2 = timed(op, f(4 * n0))
+            entry = {"family": name, "n": n0, "bound": bound, "result": res_kind(r2)}
+            bad = None
+            if res_kind(r2) == "panic" or res_kind(r1) == "panic":
+                bad = "panic"
+            elif t1 is not None and t2 is not None:
+                for step, a_us, b_us in zip(("parse", "to_string", "re-parse"), t1, t2):
+                    ratio = b_us / max(a_us, 2000)       # below 2 ms the measurement is noise
+                    entry["%s_us" % step] = [a_us, b_us]
+                    entry["%s_ratio" % step] = round(ratio, 2)
+                    if ratio > bound:
+                        bad = "%s: %d us at n=%d, %d us at 4n (ratio %.1f > %.0f)" % (step, a_us, n0, b_us, ratio, bound)
+            report.append(entry)
+            if bad:
+                run.violations.append({"property": run.pid, "kind": "violation", "seed": run.seed, "tier": run.tier,
+                                       "case": {"id": "z0", "op": "timing", "args": [op, hx(f(4 * n0))]}, "input_text": f(4 * n0)[:600],
+                                       "detail": "time scaling, family '%s': %s" % (name, bad),
+                                       "how_to_replay": "./check C05 --replay <this file>"})
+        run.stats["time_scaling"] = report
 
     def judge(self, run, c, m, i):
         rk = res_kind(i)
